@@ -168,6 +168,10 @@ func (c02) Generate(seed uint64, tier string, index int) any {
 			if g.R.Intn(3) == 0 {
 				f.BlockLen = 700 + 8*g.R.Intn(2000)
 			}
+			if g.R.Intn(12) == 0 {
+				// above the 128 KiB limit of later protocols; protocol 27 allows 2^29
+				f.BlockLen = []int{131073, 150000, 262144, 1 << 20, 1<<24 + 8, 1 << 29}[g.R.Intn(6)]
+			}
 			if g.R.Intn(6) == 0 {
 				f.BlockLen = 1 + g.R.Intn(64) // far below what gokrazy itself would choose, legal on the wire
 				if sz > 40000 {
